@@ -429,6 +429,14 @@ class Gen:
                             Interp({}).ev(x)
                         except Undefined:
                             return None
+        if t == INT and self.rng.random() < 0.1:
+            # the smallest int, spelled as an expression (there is no literal for it): a constant like any other
+            big = N("lit", INT, v=(INT_MAX, "2147483647"), const=True)
+            one = N("lit", INT, v=(1, "1"), const=True)
+            m = self.rng.choice((N("un", INT, (big,), v="~", const=True),
+                                 N("bin", INT, (N("un", INT, (big,), v="-", const=True), one), v="-", const=True)))
+            a, b = (m, b) if self.rng.random() < 0.5 else (a, m)
+            self.feat("Math.%s:int-min" % f)
         self.feat("Math.%s:%s" % (f, t))
         return N("minmax", t, (a, b), v=f)
 
